@@ -28,19 +28,19 @@ pub type BatchItem = Item;
 //@contract-file fn/tracker_publish.c
 //@end
 
-//@extract src/keyspace/mod.rs :: Keyspace :: insert world props=C01+C02+C06+C12+C13
+//@extract src/keyspace/mod.rs :: Keyspace :: insert world props=C01+C02+C06+C12+C13+C05
 //@contract-file fn/ks_insert.c
 //@end
 
-//@extract src/keyspace/mod.rs :: Keyspace :: remove world props=C01+C02+C06+C12+C13
+//@extract src/keyspace/mod.rs :: Keyspace :: remove world props=C01+C02+C06+C12+C13+C05
 //@contract-file fn/ks_remove.c
 //@end
 
-//@extract src/keyspace/mod.rs :: Keyspace :: remove_weak world props=C01+C02+C06+C12+C13
+//@extract src/keyspace/mod.rs :: Keyspace :: remove_weak world props=C01+C02+C06+C12+C13+C05
 //@contract-file fn/ks_remove_weak.c
 //@end
 
-//@extract src/keyspace/mod.rs :: Keyspace :: clear world props=C01+C02+C04+C06+C12+C13
+//@extract src/keyspace/mod.rs :: Keyspace :: clear world props=C01+C02+C04+C06+C12+C13+C05
 //@contract-file fn/ks_clear.c
 //@end
 
@@ -60,7 +60,7 @@ pub type BatchItem = Item;
     ensures r == (self.data@.len() == 0),
 //@end
 
-//@extract src/batch/mod.rs :: WriteBatch :: commit world until=drop(keyspaces) iter_arg=write_batch:0 props=C01+C02+C03+C06+C09+C13
+//@extract src/batch/mod.rs :: WriteBatch :: commit world until=drop(keyspaces) iter_arg=write_batch:0 props=C01+C02+C03+C06+C09+C13+C05
 //@contract-file fn/batch_commit.c
 //@loop 0
             invariant
